@@ -19,6 +19,7 @@ import (
 	"errors"
 	"fmt"
 	"math/rand"
+	"os"
 	"strings"
 	"sync/atomic"
 
@@ -287,6 +288,10 @@ func safeRun(ctx *distsys.MPCalContext) (err error) {
 
 func main() {
 	r := common.Start("C10", "exploration")
+	if r.Replay != "" {
+		replay(r)
+		return
+	}
 	rng := r.Rand("c10")
 	var samples common.SampleKeeper
 	samples.N = 6
@@ -479,4 +484,39 @@ func main() {
 		"mode (3) (ids or bounds differing at the same depth between attempts) is checked for range and panic-freedom only: the statement conditions exactly-once coverage on consulting the same choice points on each attempt",
 		"prefix-stable coverage is demanded only after every choice point has been consulted once (a deeper digit does not exist before that)",
 	})
+}
+
+// replay re-drives the stored structure through a fresh real counter (its random start differs, the law does not).
+func replay(r *common.Run) {
+	key, _, wit, err := r.LoadReplay()
+	if err != nil {
+		fmt.Println("cannot read replay file:", err)
+		os.Exit(3)
+	}
+	var w witness
+	_ = common.Remarshal(wit, &w)
+	if len(w.Points) == 0 {
+		_ = common.Remarshal(wit["points"], &w.Points)
+	}
+	if len(w.Points) == 0 {
+		fmt.Println("replay file has no choice structure; stored key:", key)
+		r.FinishReplay(key)
+	}
+	for rep := 0; rep < 200 && r.Violations() == 0; rep++ {
+		fc := distsys.MakeRoundRobinFairnessCounter()
+		var ww *witness
+		if strings.HasPrefix(w.Mode, "prefix") {
+			stop := make([][]bool, len(w.Points))
+			for i, p := range w.Points {
+				stop[i] = make([]bool, p.Bound)
+			}
+			_, ww = checkPrefix(fc, "R.l", w.Points, stop, 3*product(w.Points)+10)
+		} else {
+			_, ww = checkFixed(fc, "R.l", w.Points, 3*product(w.Points)+10)
+		}
+		if ww != nil {
+			r.Report("C10:"+ww.Mode+":"+strings.SplitN(ww.Problem, " ", 2)[0], ww.Problem, ww)
+		}
+	}
+	r.FinishReplay(key)
 }
